@@ -162,6 +162,9 @@ C18_CORPUS = [
     "pipeline:\n- __type__: verifyaml_c05.RecPool\nlogging:\n  version: 1\n",
     "pipeline:\n- !VPool\nverifextra: !!python/object/apply:verifcanary_live.fire [1]\n",
     "pipeline:\n- !VPool\nverifextra: &x !VEager [1]\nzz: *x\n",
+    "pipeline:\n- !VPool\nverifextra: !VEager [1, {a: [2, !VLazy {b: 3}]}]\n",
+    "pipeline:\n- !VDeco {a: !VEager [x, {k: !!python/tuple [1, 2]}]}\n- !VPool\n",
+    "pipeline:\n- !VPool\nverifextra: !VLazy {? !!python/name:verifcanary_live.fire '' : 1}\n",
 ]
 
 
